@@ -5,7 +5,10 @@ CONSTANTS
   Muts = {"none", "msg_changed"}
   MaxWire = 3
   Shared = FALSE
+  KeyCache = FALSE
+  MaxGen = 1
 INVARIANT TypeOK
 INVARIANT KeyOwnership
 INVARIANT VerifiesOnlyOwn
+VIEW View
 CHECK_DEADLOCK FALSE
